@@ -21,7 +21,7 @@ func isFlagSetMethod(sc *ssa.Function) bool {
 	return rn != nil && rn.Obj().Name() == "FlagSet"
 }
 
-func topName(f *ssa.Function) string { return topFn(f).Name() }
+func topName(f *ssa.Function) string { return engine.ShortName(topFn(f)) }
 
 func c01(c *Ctx) {
 	P, R := c.P, c.R
@@ -100,15 +100,15 @@ func c01(c *Ctx) {
 							}
 						}
 					}
-					if sc != nil && isFlagSetMethod(sc) && flagSetInPlace[sc.Name()] && len(t.Call.Args) > 0 {
+					if sc != nil && isFlagSetMethod(sc) && flagSetInPlace[engine.ShortName(sc)] && len(t.Call.Args) > 0 {
 						// receiver loaded from snapMsg.flags?
 						if ld, ok := t.Call.Args[0].(*ssa.UnOp); ok {
 							if fa, ok := ld.X.(*ssa.FieldAddr); ok && fieldOfAddr(fa) == flagsFld {
 								inplace++
 								okx := topName(f) == "Fetch" && c.seenAnnounced(t)
-								R.Check(okx, "R01.1", c.name(f)+"|in-place "+sc.Name(), P.Pos(t.Pos()),
+								R.Check(okx, "R01.1", c.name(f)+"|in-place "+engine.ShortName(sc), P.Pos(t.Pos()),
 									"in-place flag change is announced by ItemFlags in the same FETCH response",
-									"a snapshot message's flags are changed in place ("+sc.Name()+") without the same path adding ItemFlags(msg.flags) to the response it sends: the client's view of the flags goes stale")
+									"a snapshot message's flags are changed in place ("+engine.ShortName(sc)+") without the same path adding ItemFlags(msg.flags) to the response it sends: the client's view of the flags goes stale")
 							}
 						}
 					}
@@ -167,7 +167,7 @@ func (c *Ctx) seenAnnounced(call *ssa.Call) bool {
 	f := call.Parent()
 	cut := map[ssa.Instruction]bool{}
 	for _, cs := range engine.Calls(f) {
-		if sc := cs.Common().StaticCallee(); sc != nil && sc.Name() == "ItemFlags" {
+		if sc := cs.Common().StaticCallee(); sc != nil && engine.ShortName(sc) == "ItemFlags" {
 			// must be dominated by the mutation (same branch) — any ItemFlags after the call
 			if engine.InstrReaches(call, cs.Instr) && call.Block().Dominates(cs.Instr.Block()) {
 				cut[cs.Instr] = true
@@ -202,7 +202,7 @@ func c01handles(c *Ctx) {
 		var muts []ssa.Instruction
 		for _, cs := range engine.Calls(f) {
 			if sc := cs.Common().StaticCallee(); sc != nil && engine.RecvNamed(sc) != nil && engine.RecvNamed(sc).Obj().Name() == "snapshot" {
-				switch sc.Name() {
+				switch engine.ShortName(sc) {
 				case "appendMessage", "appendMessageFromOtherState", "expungeMessage", "setMessageFlags":
 					muts = append(muts, cs.Instr)
 				}
@@ -219,7 +219,7 @@ func c01handles(c *Ctx) {
 				isSil := false
 				switch t := iff.Cond.(type) {
 				case *ssa.Call:
-					if sc := t.Call.StaticCallee(); sc != nil && (sc.Name() == "IsClose" || (sc.Name() == "Equals" && isFlagSetMethod(sc))) {
+					if sc := t.Call.StaticCallee(); sc != nil && (engine.ShortName(sc) == "IsClose" || (engine.ShortName(sc) == "Equals" && isFlagSetMethod(sc))) {
 						isSil = true
 					}
 				case *ssa.UnOp:
@@ -259,7 +259,7 @@ func c01handles(c *Ctx) {
 				if call, ok := v.(*ssa.Call); ok {
 					cur := call
 					for i := 0; i < 5 && cur != nil; i++ {
-						if sc := cur.Call.StaticCallee(); sc != nil && sc.Pkg != nil && engine.RelPkg(sc.Pkg.Pkg.Path()) == "internal/response" && sc.Name() == x.ctor {
+						if sc := cur.Call.StaticCallee(); sc != nil && sc.Pkg != nil && engine.RelPkg(sc.Pkg.Pkg.Path()) == "internal/response" && engine.ShortName(sc) == x.ctor {
 							ctorOK = true
 						}
 						if len(cur.Call.Args) == 0 {
@@ -303,7 +303,7 @@ func c01forward(c *Ctx) {
 						for _, ret := range engine.Returns(fr) {
 							if engine.IsNilConst(engine.ResultOf(ret, 1)) {
 								if engine.AnyBackward(engine.ResultOf(ret, 0), engine.FlowOpts{AppendBase: true, Calls: func(cl *ssa.Call) []ssa.Value {
-									if sc := cl.Call.StaticCallee(); sc != nil && sc.Name() == "Merge" {
+									if sc := cl.Call.StaticCallee(); sc != nil && engine.ShortName(sc) == "Merge" {
 										return cl.Call.Args
 									}
 									return nil
@@ -355,7 +355,7 @@ func c01forward(c *Ctx) {
 		cut := map[ssa.Instruction]bool{}
 		for _, cs := range engine.Calls(f) {
 			if sc := cs.Common().StaticCallee(); sc != nil {
-				if sc.Name() == "handleWithMailbox" {
+				if engine.ShortName(sc) == "handleWithMailbox" {
 					hw, _ = cs.Instr.(*ssa.Call)
 				}
 				if _, isPF := pf[sc]; isPF {
@@ -409,7 +409,7 @@ func (c *Ctx) freshFlags(rule string) {
 				okAll, bad := true, ""
 				for _, o := range P.Origins(st.Val, engine.OriginOpts{Stop: func(v ssa.Value) bool {
 					if call, ok := v.(*ssa.Call); ok {
-						if sc := call.Call.StaticCallee(); sc != nil && flagSetFresh[sc.Name()] {
+						if sc := call.Call.StaticCallee(); sc != nil && flagSetFresh[engine.ShortName(sc)] {
 							return true
 						}
 					}
